@@ -282,7 +282,7 @@ func GetAttr(v Value, attr Value, args ...Value) (Value, error) {
 	case reflect.Map:
 		// An unhashable value (a slice, say) can never be a key.
 		if key, ok := convertValue(attr, r.Type().Key()); ok && key.Type().Comparable() {
-			retval = r.MapIndex(key)
+			retval = mapIndex(r, key)
 		}
 	case reflect.Slice, reflect.Array:
 		index := int(CoerceNumber(attr))
@@ -337,6 +337,17 @@ func describe(v Value) string {
 		return fmt.Sprintf("%T", v)
 	}
 	return fmt.Sprintf("%v", v)
+}
+
+// mapIndex is m.MapIndex(key), except that a key which cannot be hashed (an
+// array or struct holding a slice in an interface, say) is simply not found.
+func mapIndex(m, key reflect.Value) (v reflect.Value) {
+	defer func() {
+		if recover() != nil {
+			v = reflect.Value{}
+		}
+	}()
+	return m.MapIndex(key)
 }
 
 // fieldByName is r.FieldByName, except that a field promoted through an
